@@ -758,10 +758,18 @@ func (e *Env) call(x *SExpr) Val {
 		if x.Name == "haskey" {
 			return Val{T: tBool, S: sx("select", sx("select", e.state.get(dom), v.S), ks)}
 		}
-		if !scalarV {
+		_, _ = val, scalarV
+		lvs := fc.mapValLeaves(v.T, v.S)
+		if lvs == nil {
 			return e.errorf("mapget: values of this map type are not modelled")
 		}
-		return Val{T: mt.Elem(), S: sx("select", sx("select", e.state.get(val), v.S), ks)}
+		arrOf := map[string]string{}
+		for _, l := range lvs {
+			arrOf[l.path] = l.arr
+		}
+		return fc.mapValBuild(mt.Elem(), "", func(path string) string {
+			return sx("select", sx("select", e.state.get(arrOf[path]), v.S), ks)
+		})
 	case "mapdom", "mapval":
 		// mapdom(m) / mapval(m): the key set / value table of map m as a whole (for equalities between runs)
 		v := e.tr(x.Args[0])
